@@ -120,6 +120,11 @@ Register(n) ==
   /\ nev' = IF Live THEN nev ELSE nev + 1
   /\ UNCHANGED <<now, alive, ckptId, pend, publishing, completed, splitters, dep, sck, ock, msgs, nflaky, pubs, taint>>
 
+\* where a fault strikes (used to derive the scenarios run on real workers)
+FaultCtx(n) == [member  |-> n \in NodesOf(asm.ops, asm.srs) /\ status \in {"Starting", "Running"},
+                status  |-> status, ph |-> st.ph, pending |-> pend.on /\ pend.gen = asm.gen,
+                standby |-> Cardinality({m \in alive \ NodesOf(asm.ops, asm.srs) : m[1] = n[1] /\ m[2] \in (IF n[1] = "op" THEN reg.op ELSE reg.sr)})]
+
 \* a node leaves: its process state and the messages addressed to it are gone
 Gone(n) ==
   /\ alive' = alive \ {n}
@@ -133,7 +138,7 @@ Deregister(n) ==
   /\ LET r1 == IF n[1] = "op" THEN [reg EXCEPT !.op = @ \ {n[2]}] ELSE [reg EXCEPT !.sr = @ \ {n[2]}]
          e  == Eval(r1, hb, status, asm)
      IN /\ ApplyEval(e)
-        /\ Log([a |-> "Deregister", kind |-> n[1], i |-> n[2], ev |-> EvObs(e)])
+        /\ Log([a |-> "Deregister", kind |-> n[1], i |-> n[2], ev |-> EvObs(e), ctx |-> FaultCtx(n)])
   /\ Gone(n)
   /\ nev' = nev + 1
   /\ UNCHANGED <<now, ckptId, pend, publishing, completed, splitters, dep, nflaky, pubs, taint>>
@@ -143,7 +148,7 @@ Kill(n) ==
   /\ nev < MaxEv /\ n \in alive /\ hb[n] # -1
   /\ Gone(n)
   /\ nev' = nev + 1
-  /\ Log([a |-> "Kill", kind |-> n[1], i |-> n[2]])
+  /\ Log([a |-> "Kill", kind |-> n[1], i |-> n[2], ctx |-> FaultCtx(n)])
   /\ UNCHANGED <<reg, hb, now, status, asm, st, ckptId, pend, publishing, completed, splitters, dep, nflaky, pubs, taint>>
 
 \* the clock passes one heartbeat deadline: every node that has not heartbeated
